@@ -116,7 +116,9 @@ func (e *Env) RunOpt(p *plan.Plan, wallCap time.Duration, eventLog string, gomax
 		return pr
 	}
 	bin := e.Bin
-	if p.Kernel == "race" {
+	if p.Kernel == "race" && !(p.Property == "REF" && e.Bin != "") {
+		// solo reference runs of race-kernel plans need no race detection:
+		// the plain binary runs the same kernel several times faster
 		bin = e.BinRace
 	}
 	ctx, cancel := context.WithTimeout(context.Background(), wallCap)
@@ -143,7 +145,7 @@ func (e *Env) RunOpt(p *plan.Plan, wallCap time.Duration, eventLog string, gomax
 	if eventLog != "" {
 		cmd.Env = append(cmd.Env, "VERIF_EVENTLOG="+eventLog)
 	}
-	if p.Kernel == "race" {
+	if bin == e.BinRace {
 		cmd.Env = append(cmd.Env, "GORACE=log_path="+filepath.Join(dir, "race")+" halt_on_error=0 history_size=5 atexit_sleep_ms=0")
 	}
 	var stderr bytes.Buffer
@@ -189,7 +191,7 @@ func (e *Env) RunOpt(p *plan.Plan, wallCap time.Duration, eventLog string, gomax
 			pr.Outcome = o
 		}
 	}
-	if p.Kernel == "race" {
+	if bin == e.BinRace {
 		files, _ := filepath.Glob(filepath.Join(dir, "race.*"))
 		sort.Strings(files)
 		for _, f := range files {
